@@ -33,6 +33,8 @@ def run_ser(pid, tier, seed, final_op, fmts, opts_quick, opts_thorough, clauses,
     runs.append(("shapes", 2 if quick else 3, "min", ["entity", "generation"], opts[:1]))
     # (4) namespace histories on the document and its bundle
     runs.append(("ns", 2 if quick else 3, "min", ["entity"], opts[:1]))
+    # (5) a document with a default namespace and two bundles
+    runs.append(("ns2", 3 if quick else 4, "min", ["entity"], opts[:1]))
     behaviours = []
     stA = stT = 0
     wallA = wallB = 0.0
